@@ -561,6 +561,7 @@ void ExtrapolatedSmootherTake::extrapolatedSmoothing(Vector<double>& x, const Ve
 /* Black Circle Section */
 #pragma omp for
         for (int i_r = start_black_circles; i_r < grid_.numberSmootherCircles(); i_r += 2) {
+            VERIF_ITER(i_r);
             applyAscOrthoCircleSection(i_r, SmootherColor::Black, x, rhs, temp);
             solveCircleSection(i_r, x, temp, circle_solver_storage_1, circle_solver_storage_2);
         } /* Implicit barrier */
@@ -568,12 +569,14 @@ void ExtrapolatedSmootherTake::extrapolatedSmoothing(Vector<double>& x, const Ve
 /* White Circle Section */
 #pragma omp for nowait
         for (int i_r = start_white_circles; i_r < grid_.numberSmootherCircles(); i_r += 2) {
+            VERIF_ITER(i_r);
             applyAscOrthoCircleSection(i_r, SmootherColor::White, x, rhs, temp);
             solveCircleSection(i_r, x, temp, circle_solver_storage_1, circle_solver_storage_2);
         }
 /* Black Radial Section */
 #pragma omp for
         for (int i_theta = 0; i_theta < grid_.ntheta(); i_theta += 2) {
+            VERIF_ITER(i_theta);
             applyAscOrthoRadialSection(i_theta, SmootherColor::Black, x, rhs, temp);
             solveRadialSection(i_theta, x, temp, radial_solver_storage);
         } /* Implicit barrier */
@@ -581,6 +584,7 @@ void ExtrapolatedSmootherTake::extrapolatedSmoothing(Vector<double>& x, const Ve
 /* White Radial Section*/
 #pragma omp for
         for (int i_theta = 1; i_theta < grid_.ntheta(); i_theta += 2) {
+            VERIF_ITER(i_theta);
             applyAscOrthoRadialSection(i_theta, SmootherColor::White, x, rhs, temp);
             solveRadialSection(i_theta, x, temp, radial_solver_storage);
         } /* Implicit barrier */
